@@ -44,7 +44,7 @@ func VerifC12Blocktime() {
 	verifKnownFinding("C12-blocktime-get-range", slot >= idx.start && slot <= idx.end && slot-idx.start >= idx.capacity)
 	t, err := idx.Get(slot)
 	if err != nil {
-		verifAssert(t == 0 && (slot < idx.start || slot > idx.end), "C12.blocktime: Get failed for a slot inside the declared range")
+		verifAssert(t == 0 && (slot < idx.start || slot > idx.end || slot-idx.start >= idx.capacity), "C12.blocktime: Get failed for a slot that is inside the declared range and has a stored value")
 		verifReach("get-error")
 	} else {
 		verifAssert(t >= 0 && t <= 1<<32-1, "C12.blocktime: stored block time outside uint32")
